@@ -12,6 +12,7 @@ THEOREMS = [("C04", ["C04_nopanic", "C04_datum_nopanic", "C04_fuel_mono", "C04_t
             ("DeDispatchTie", ["tie_de_any", "tie_de_ignored", "tie_de_forward", "de_any_is_generated", "de_ignored_is_generated", "de_is_generated"])]
 PROOF_FILES = ["proofs/DeSafetyProofs.v", "proofs/DeTotalProofs.v", "proofs/ReaderProofs.v", "proofs/DeProofs.v", "props/C04.v", "proofs/DeDispatchTie.v", "proofs/DeClosure.v", "proofs/ContainerLimitsProofs.v"]
 TRUSTED_BASE = [
+    "lib/ocf.py (Python): null-codec container files written by hand (header, blocks of hand-encoded strings / bytes / fixed / small records, arrays, maps, unions); harness `cr ... (alloc N)` sets ReaderRead::max_alloc_size on the chunked source and measures the largest allocation during deserialize_seed_next; expected items: the property's statement (a field larger than the cap that is not fully buffered => Err, everything before it Ok) and the container reader model (Container.v, same lines)",
     "dispatch tie: translators/gen_dispatch.py (+ rustmatch.py) reads the arms of every deserialize_* method of DatumDeserializer into gen/GenDeDispatch.v; proofs/DeDispatchTie.v proves that model/De.v's de is the interpretation of those regenerated tables (the meaning of each action symbol, act_sem, is hand-written there)",
     "Coq 8.16.1 kernel; no axioms (Print Assumptions: closed)",
     "hand-written model/De.v, Reader.v, Varint.v of de/** and integer-encoding 4.1.0, with a Panic outcome at every expect/unwrap/index/unreachable site of the modelled code; tied by the correspondence run on hostile, malformed and random inputs",
@@ -44,6 +45,41 @@ def hostile(rng, nodes):
         unit = rng.choice([G.varint(1), G.varint(2), G.varint(1) + G.varint(1), G.varint(-1) + G.varint(1000)])
         return unit * rng.choice([1, 2, 3, 5, 65, 66, 200]) + bytes(rng.randint(0, 4))
     return G.rand_bytes(rng, rng.randint(0, 40))
+
+def overlong(rng, k=None, last=None):
+    """a varint of k >= 10 continuation bytes followed by a final byte (or by nothing): no 64-bit value is written that way"""
+    k = k if k is not None else rng.choice([10, 10, 11, 12, 15, 19, 20, 21, 40])
+    fill = rng.choice([0x80, 0xFF, 0x81, None])
+    body = bytes((fill if fill is not None else (0x80 | rng.randrange(128))) for _ in range(k))
+    last = last if last is not None else rng.choice([b"\x00", b"\x01", b"\x7f", b""])
+    return body + last
+
+def varint_sites():
+    """(label, nodes, bytes read before the varint, bytes that would follow it): every kind of place where the decoder reads a
+    varint -- int / long values, string / bytes / decimal lengths, array and map block counts and byte sizes, union and
+    enum indices -- at the root, after other record fields, and after k items of an array (so that the varint starts at
+    any offset relative to the reader's refill boundaries)"""
+    N = G.Node
+    out = []
+    for lab, node in (("int", N("int")), ("long", N("long")), ("string-len", N("string")), ("bytes-len", N("bytes")),
+                      ("decimal-len", N("bytes", lt=("decimal", 2, 10))), ("enum-index", N("enum", name="E", symbols=["A", "B", "C"])),
+                      ("date", N("int", lt="date")), ("uuid-len", N("string", lt="uuid"))):
+        out.append((lab, [node], b"", b"abc"))
+        out.append((lab + "-field", [N("record", name="R", fields=[("h", 1), ("x", 2), ("t", 3)]), N("string"), node, N("long")],
+                    G.varint(4) + b"head", b"\x02"))
+        for k in (1, 5, 9, 13):
+            out.append((lab + "-item%d" % k, [N("record", name="R", fields=[("pre", 1), ("x", 3)]), N("array", items=2), N("boolean"), node],
+                        G.varint(k) + b"\x01" * k + G.varint(0), b""))
+    out.append(("array-count", [N("array", items=1), N("int")], b"", b"\x02\x00"))
+    out.append(("array-2nd-count", [N("array", items=1), N("int")], G.varint(2) + b"\x02\x04", b"\x02\x00"))
+    out.append(("array-byte-size", [N("array", items=1), N("int")], G.varint(-2), b"\x02\x04\x00"))
+    out.append(("map-count", [N("map", values=1), N("int")], b"", b"\x02k\x02\x00"))
+    out.append(("map-key-len", [N("map", values=1), N("int")], G.varint(1), b"k\x02\x00"))
+    out.append(("map-byte-size", [N("map", values=1), N("int")], G.varint(-1), b"\x02k\x02\x00"))
+    out.append(("union-index", [N("union", variants=[1, 2]), N("null"), N("long")], b"", b"\x02"))
+    out.append(("union-index-field", [N("record", name="R", fields=[("h", 1), ("u", 2)]), N("bytes"), N("union", variants=[3, 4]), N("null"), N("string")],
+                G.varint(7) + b"7 bytes", b"\x02a"))
+    return out
 
 def run(ctx):
     rng = random.Random(ctx["seed"] * 1000003 + 4)
@@ -111,6 +147,25 @@ def run(ctx):
             for tg in ("any", "string", "str"):
                 lines.append("de %s %s %s (chunks 1) (cfg 100 8 %d)" % (G.schema_sx([N("string")]), tg, C.hx(body), cap))
                 meta.append(("alloc-cap", want if tg != "str" else None))
+    # ---- 2b. over-long varints (10 and more continuation bytes) at every kind of varint site, through readers of EVERY small
+    #      refill size and through readers whose refill boundary falls 1..9 bytes after the start of the varint (the reader's
+    #      byte-by-byte fallback): an error, never a panic; the slice agrees
+    for lab, nodes, pre, post in varint_sites():
+        sch = G.schema_sx(nodes)
+        reps = 2 if quick else 12
+        for k, last in [(10, b"\x00"), (10, b"\x01"), (10, b""), (11, b"\x00"), (9, b"\x02"), (9, b"")] + [(None, None)] * reps:
+            ov = overlong(rng, k, last)
+            data = pre + ov + post
+            o = len(pre)
+            plans = ["slice"] + ["(chunks %d)" % c for c in range(1, 13)]
+            plans += ["(chunks %d 64)" % (o + j) for j in range(1, 10)] + ["(chunks %d %d 64)" % (max(o, 1), j) for j in range(1, 10)]
+            if quick:
+                plans = plans[:1] + rng.sample(plans[1:13], 4) + rng.sample(plans[13:], 6)
+            for tg in (["any", "ignored"] if quick else ["any", "ignored", targets.typed(nodes, 0)]):
+                for pl in plans:
+                    lines.append("de %s %s %s %s" % (sch, tg, C.hx(data), pl))
+                    # 9 continuation bytes + a final byte is a legal (if padded) way of writing a number: decided by the model
+                    meta.append(("overlong-varint-" + lab.split("-item")[0], "err" if len(ov) > 10 or (len(ov) == 10 and ov[-1] & 0x80) else None))
     impl, model = codec.both(lines)
     for line, ri, rm, (kind, want) in zip(lines, impl, model, meta):
         distinct.add(line)
@@ -127,6 +182,67 @@ def run(ctx):
             violations.append({"impl_case": line, "what": "%s: expected %s" % (kind, want), "impl": ri[:200]})
         if len(samples) < 6 and kind != "hostile":
             samples.append({"kind": kind, "case": line[:160], "outcome": k})
+    # ---- 2c. the allocation cap through the container reader: files of several blocks read from a chunked source with a
+    #      non-default max_alloc_size; a length-delimited / fixed field larger than the cap in block 1, 2 or 3 (the reader that
+    #      is restricted to one block and turned back into the original afterwards must keep the cap), not fully buffered
+    import ocf, cont
+    clines, cmeta = [], []
+    for cap0 in ([16, 100] if quick else [12, 16, 100, 1000, 5000]):
+        fx = max(cap0, 40)
+        for lab, js, nodes, enc1, var_len in ocf.SCHEMAS + [ocf.fixed_schema(fx), ocf.fixed_schema(fx + 1), ocf.fixed_schema(2 * fx + 3)]:
+            # (the cap also applies to the header: the schema text must fit)
+            cap = max(cap0, len(js))
+            small = lambda: enc1(3, b"abc")
+            fsize = None if var_len else nodes[1].size
+            for at_block in (0, 1, 2):
+                for n, hostile_len in ([(cap, None), (cap + 1, None), (2 * cap + 5, None), (3, 2**28), (3, 2**40)] if var_len else [(fsize, None)]):
+                    blocks = [[small() for _ in range(rng.randint(1, 3))] for _ in range(3)]
+                    body = bytes(0x61 + rng.randrange(26) for _ in range(n))
+                    big = enc1(hostile_len if hostile_len is not None else n, body)
+                    pos = rng.randint(0, len(blocks[at_block]))
+                    blocks[at_block].insert(pos, big)
+                    if hostile_len is not None:
+                        # the file ends inside the field whose claimed length is huge
+                        blocks = blocks[:at_block + 1]
+                        blocks[at_block] = blocks[at_block][:pos + 1]
+                        sync = bytes(range(0xA0, 0xB0))
+                        data = b"".join(blocks[at_block])
+                        f = ocf.header(js, sync) + b"".join(ocf.block(b, sync) for b in blocks[:at_block]) + \
+                            G.varint(len(blocks[at_block])) + G.varint(hostile_len + 64) + data
+                    else:
+                        f = ocf.file(js, blocks)
+                    before = sum(len(b) for b in blocks[:at_block]) + pos
+                    total = sum(len(b) for b in blocks)
+                    over = (hostile_len if hostile_len is not None else (n if var_len else fsize)) > cap
+                    for mode in ["(chunks 1)", "(chunks %d)" % rng.choice([2, 3, 7])] + ([] if quick else ["(chunks 5 1 64 1)"]):
+                        clines.append(("cr %s %s any %d" % (C.hx(f), mode, total + 3), G.schema_sx(nodes), "(alloc %d)" % cap))
+                        cmeta.append((lab, cap, at_block, before, total, over, hostile_len is not None))
+    cimpl = C.run_parallel(C.AVRODRIVE, ["%s %s" % (a, c) for a, b, c in clines])
+    cmodel = C.run_parallel(C.AVROMODEL, ["%s %s %s" % (a, b, c) for a, b, c in clines])
+    def items_of(r):
+        p = cont.parse_cr(r)
+        its = [it for it in p.get("items", []) if it[0] in ("ok", "err", "eof")]
+        al = [int(it[0].split()[1].rstrip(")")) for it in p.get("items", []) if it[0].startswith("(allocs")]
+        return p, its, (al[0] if al else None)
+    for (a, b, c), ri, rm, (lab, cap, at_block, before, total, over, hostile_file) in zip(clines, cimpl, cmodel, cmeta):
+        line = "%s %s" % (a, c)
+        distinct.add(line)
+        pi, its, largest = items_of(ri)
+        pm, mits, _ = items_of(rm)
+        kinds = [it[0] for it in its]
+        dist["container-cap/%s/block%d/%s" % ("over" if over else "within", at_block, "err" if "err" in kinds else "ok")] += 1
+        if "crash" in pi or pi.get("open_err"):
+            violations.append({"impl_case": line[:3000], "what": "container reader with max_alloc_size %d: did not open / crashed" % cap, "impl": ri[:300]})
+            continue
+        cut = lambda ks: ks[:ks.index("err") + 1] if "err" in ks else ks
+        if "(unmodelled)" not in rm and cut(kinds) != cut([it[0] for it in mits]):
+            diffs.append({"impl_case": line[:3000], "model_case": ("%s %s %s" % (a, b, c))[:3000], "impl": ri[:400], "model": rm[:400]})
+        want = ["ok"] * before + ["err"] if over else ["ok"] * total + ["eof", "eof"]
+        if cut(kinds)[:len(want)] != want:
+            violations.append({"impl_case": line[:3000], "what": "container reader (chunked source, max_alloc_size %d): a %s field %s the cap in block %d: "
+                               "expected items %s" % (cap, lab, "larger than" if over else "within", at_block + 1, " ".join(want[-3:])), "impl": ri[:400]})
+        elif largest is not None and largest > max(4 * cap, 4096):
+            violations.append({"impl_case": line[:3000], "what": "container reader (max_alloc_size %d): a single allocation of %d bytes" % (cap, largest)})
     # ---- 3. measured allocations (counting global allocator, ignoring consumer)
     alines, ameta = [], []
     for _ in range(n // 2):
@@ -156,11 +272,16 @@ def run(ctx):
         # (on the error path the largest allocation may be the error message itself)
         if cap is not None and mx > (max(cap, 32) if p[0] == "ok" else max(cap, 1024)):
             violations.append({"impl_case": line, "what": "reader path: a single allocation of %d bytes exceeds max_alloc_size %d" % (mx, cap)})
-    return {"evaluations": len(lines) + len(alines), "distinct_nontrivial": len(distinct),
+    return {"evaluations": len(lines) + len(alines) + len(clines), "distinct_nontrivial": len(distinct),
             "rule": "random schemas x hostile byte strings (huge / negative / i64::MIN counts and lengths, chains of small blocks, zero-byte elements, "
                     "nesting 1..200, random bytes) x dynamic, ignoring and typed consumers x slice and chunked readers x small limits: the crate must "
                     "return Ok or Err (panic, abort, timeout are results) and agree with the model; the limits exactly: k elements vs max_seq_size "
                     "k-1/k in one block, two blocks, negative-count block, one-element blocks, zero-byte items; nesting d vs budget d-1/d; recursive "
-                    "schema nested 10..100000 deep; reader fields of n bytes vs max_alloc_size n-1/n; counting allocator: zero allocations on the "
+                    "schema nested 10..100000 deep; reader fields of n bytes vs max_alloc_size n-1/n; over-long varints (10..40 continuation bytes) at every "
+                    "kind of varint site (values, lengths, counts, byte sizes, indices; root / record field / after k array items) x refill sizes "
+                    "1..12 and refill boundaries 1..9 bytes into the varint: Err, never a panic; container files of three blocks read from a "
+                    "chunked source with max_alloc_size 16..5000: a string / bytes / fixed field (in records, arrays, maps, unions) within / above "
+                    "the cap in block 1, 2 or 3, and truncated files claiming a 2^28 / 2^40-byte field: items ok up to the field, then Err, largest "
+                    "single allocation bounded by the cap, same items as the container model; counting allocator: zero allocations on the "
                     "slice path on success, largest single allocation within the cap on the reader path",
             "samples": samples, "violations": violations, "model_diffs": diffs, "distribution": dict(dist)}
